@@ -1,24 +1,20 @@
 (* C09 -- replacements are format-compliant and keep their context.
    Proved on the model: a $9$ replacement is decryptable by the model's decoder (it is encrypt of an ASCII pseudonym, C18); the type-7, decimal
-   and hexadecimal encoders are checked on the pseudonym family by computation for the first 200 pseudonym numbers (bounded: stated in the theorem);
+   and hexadecimal encoders produce their class's shape for every pseudonym number (unbounded, EncProofs.v);
    md5-crypt / sha512-crypt shapes are oracle behaviour (passlib), checked by the search with independent shape tests. *)
 From Coq Require Import String.
 From Coq Require Import List Bool Arith NArith ZArith.
 Import ListNotations.
-Require Import Str IpText JunModel JunProofs G_rx G_text_consts TextModel TextProofs TextProofs2 Findings.
+Require Import Str IpText JunModel JunProofs G_rx G_text_consts TextModel TextProofs TextProofs2 Findings EncProofs.
 
-Definition pseudonym (n : nat) : str := lit "netconanRemoved" ++ show_dec (N.of_nat n).
-Definition is_hex_lower (c : N) : bool := ((48 <=? c) && (c <=? 57) || (97 <=? c) && (c <=? 102))%N.
-Definition is_hex_upper (c : N) : bool := ((48 <=? c) && (c <=? 57) || (65 <=? c) && (c <=? 70))%N.
-
-(* bounded: pseudonym numbers 0..199 (a finite sweep, not the unbounded claim) *)
-Theorem C09_numeric_hex_type7_encodings_have_their_shape_for_the_first_200_pseudonyms :
-  forallb (fun n => all_digits (to_decimal_of_bytes (pseudonym n))
-                    && forallb is_hex_lower (hex_of_bytes (pseudonym n))
-                    && (match type7_hash 9 (pseudonym n) with
-                        | d1 :: d2 :: rest => (d1 =? 48)%N && (d2 =? 57)%N && forallb is_hex_upper rest && Nat.eqb (length rest) (2 * length (pseudonym n))
-                        | _ => false end)) (seq 0 200) = true.
-Proof. vm_compute. reflexivity. Qed.
+(* every pseudonym number (no bound): the decimal rendering is all digits, the hexadecimal rendering is lower-case hex, and the type-7
+   rendering is "09" followed by two upper-case hex digits per character *)
+Theorem C09_numeric_hex_type7_encodings_have_their_shape :
+  forall n : nat,
+  all_digits (to_decimal_of_bytes (pseudonym n)) = true /\
+  forallb is_hex_lower (hex_of_bytes (pseudonym n)) = true /\
+  exists rest, type7_hash 9 (pseudonym n) = 48%N :: 57%N :: rest /\ forallb is_hex_upper rest = true /\ length rest = (2 * length (pseudonym n))%nat.
+Proof. exact pseudonym_encodings_have_their_shape. Qed.
 
 Theorem C09_juniper_replacement_is_decryptable :
   forall (n : nat) (salt : str), Forall (fun c => (c < 256)%N) (pseudonym n) ->
@@ -51,7 +47,7 @@ Theorem C09_format_kept_for_every_history_refuted :
 Proof. exact numeric_after_its_juniper_encryption_refuted. Qed.
 
 Print Assumptions C09_format_kept_for_every_history_refuted.
-Print Assumptions C09_numeric_hex_type7_encodings_have_their_shape_for_the_first_200_pseudonyms.
+Print Assumptions C09_numeric_hex_type7_encodings_have_their_shape.
 Print Assumptions C09_juniper_replacement_is_decryptable.
 Print Assumptions C09_enclosing_text_is_a_partition_of_the_raw_value.
 Print Assumptions C09_replacement_keeps_the_enclosing_text.
